@@ -53,8 +53,8 @@ func newC14Shared() *c14Shared {
 	x.w2.SeparatorFunc = spg.SFDigits1
 	x.sf = spg.NewSFFunction(spg.CharRecipe{Length: 1, AllowChars: "xy", RequireSets: []string{"z"}})
 	x.c2 = spg.CharRecipe{Length: 3, Allow: spg.Lowers, Require: spg.Digits | spg.Symbols, Exclude: spg.Ambiguous}
-	x.sfBad = spg.NewSFFunction(spg.CharRecipe{Length: 1, Allow: spg.Lowers, Require: spg.Digits | spg.Symbols})
-	x.w4 = spg.NewWLRecipe(3, wl)
+	x.sfBad = spg.NewSFFunction(spg.CharRecipe{Length: 0, AllowChars: "xy"}) // refused at once: the error path
+	x.w4 = spg.NewWLRecipe(2, wl)
 	x.w4.SeparatorFunc = x.sfBad
 	x.w3 = spg.NewWLRecipe(2, wl)
 	x.w3.Capitalize = spg.CSAll
@@ -92,6 +92,13 @@ var c14Calls = map[string]c14Call{
 	"w.Entropy":            {"w.Entropy", func(x *c14Shared) string { return fmt.Sprintf("%08x", math.Float32bits(x.w.Entropy())) }},
 	"w.Size":               {"w.Size", func(x *c14Shared) string { return fmt.Sprintf("%d %d", x.w.Size(), x.wl.Size()) }},
 	"w2.Generate":          {"w2.Generate", func(x *c14Shared) string { return genStr(x.w2.Generate) }},
+	"w3.Generate":          {"w3.Generate", func(x *c14Shared) string { return genStr(x.w3.Generate) }},
+	"w3.Entropy":           {"w3.Entropy", func(x *c14Shared) string { return fmt.Sprintf("%08x", math.Float32bits(x.w3.Entropy())) }},
+	"sfBad()": {"sfBad()", func(x *c14Shared) string {
+		s, e := x.sfBad()
+		return fmt.Sprintf("%q %08x", s, math.Float32bits(float32(e)))
+	}},
+	"w4.Generate": {"w4.Generate", func(x *c14Shared) string { return genStr(x.w4.Generate) }},
 	"sf()": {"sf()", func(x *c14Shared) string {
 		s, e := x.sf()
 		return fmt.Sprintf("%q %08x", s, math.Float32bits(float32(e)))
@@ -177,6 +184,13 @@ func c14Scenario1(c *core.Ctx, si int, sc c14Scenario, bound int) {
 	// first one in some worker: the scenario order is rotated by shard).
 	var want [][]string
 	mkTape := func(i int) *tape.Tape { return policyTape(c14Policies[i]) }
+	for _, calls := range sc.Threads {
+		for _, name := range calls {
+			if c14Calls[name].Do == nil {
+				panic("c14: scenario uses unknown call " + name)
+			}
+		}
+	}
 	computeWant := func() {
 		want = make([][]string, n)
 		for i, calls := range sc.Threads {
@@ -274,6 +288,15 @@ func c14Scenario1(c *core.Ctx, si int, sc c14Scenario, bound int) {
 			}
 		}
 		for i := range want {
+			for _, w := range want[i] {
+				if strings.HasPrefix(w, "panic:") {
+					c.Incomplete("scenario %q: a call panics even when run alone (%s); not a concurrency verdict", sc.Name, w)
+					bad = true
+				}
+			}
+			if bad {
+				break
+			}
 			if !reflect.DeepEqual(got[i], want[i]) {
 				c.Violation(key+" result", fmt.Sprintf("thread %d (%v) returned %q under schedule %v; alone on the same random stream it returns %q", i, sc.Threads[i], got[i], plan, want[i]), rp)
 				bad = true
@@ -369,6 +392,15 @@ func c14Run(c *core.Ctx) {
 			}
 		}
 		jobs = append(first, rest...)
+	}
+	if only := os.Getenv("VERIF_C14_ONLY"); only != "" { // debugging aid; never set by the registered commands
+		var keep []job
+		for _, j := range jobs {
+			if fmt.Sprint(j.si) == only {
+				keep = append(keep, j)
+			}
+		}
+		jobs = keep
 	}
 	for _, j := range jobs {
 		if c.Expired() {
